@@ -74,6 +74,102 @@ Print Assumptions C18_now.
 ''' % (cmds, clist(rows))
 
 
+EXT_PROBE = r'''
+import json, sys
+from pynetdicom2 import statuses, dimsemessages as dm
+CLS = {'Success': 0, 'Pending': 1, 'Warning': 2, 'Cancel': 3, 'Failure': 4}
+def cls_of(code, cmd):
+    st = statuses.Status(code, cmd)
+    flags = [st.is_success, st.is_pending, st.is_warning, st.is_cancel, st.is_failure]
+    return flags.index(True) if flags.count(True) == 1 else 9
+regs = json.loads(sys.argv[1])
+cmds = dict((k, dm.MESSAGE_TYPE[k]) for k in dm.MESSAGE_TYPE)
+probes = json.loads(sys.argv[2])
+base = [cls_of(code, cmds.get(cf)) for cf, code in probes]
+for cf, lo, hi, kind in regs:
+    statuses.add_status(lo, kind, 'registered by the application', end=(hi if hi != lo else None),
+                        command=(cmds[cf] if cf is not None else None))
+after = [cls_of(code, cmds.get(cf)) for cf, code in probes]
+ints = [int(statuses.Status(code, cmds.get(cf))) for cf, code in probes]
+print(json.dumps(dict(base=base, after=after, ints=ints)))
+'''
+
+
+def extension_cases(rng, tier):
+    """The public add_status(): statuses an application registers - for one service or generally, single codes or
+    ranges up to FFFFH - are classified like the shipped ones: service-specific before general, every code of the
+    range, nothing else disturbed.  Run in a fresh interpreter (the tables are module-level)."""
+    import json
+    import subprocess
+    import sys
+    KIND = ['Success', 'Pending', 'Warning', 'Cancel', 'Failure']
+    out = []
+    plans = [
+        [(0x8120, 0x0116, 0x0116, 'Warning')],                       # N-SET-RSP: a code the general table knows as failure
+        [(0x8020, 0xFF02, 0xFFFF, 'Pending')],                       # a private pending block up to the last code
+        [(None, 0x1234, 0x1234, 'Warning'), (0x8021, 0x1234, 0x1234, 'Cancel')],
+        [(0x8001, 0xB000, 0xB0FF, 'Warning'), (None, 0xB010, 0xB010, 'Failure')],
+    ]
+    for _ in range(2 if tier == 'quick' else 20):
+        lo = rng.choice([1, 0x0100, 0xA000, 0xFF00, 0xFFF0])
+        hi = min(0xFFFF, lo + rng.choice([0, 1, 15, 255]))
+        plans.append([(rng.choice([None, 0x8001, 0x8020, 0x8021, 0x8010, 0x8130]), lo, hi, rng.choice(KIND)),
+                      (rng.choice([None, 0x8020]), hi, hi, rng.choice(KIND))])
+    for regs in plans:
+        probes = []
+        for cf, lo, hi, _k in regs:
+            for code in sorted(set([lo, hi, max(lo - 1, 0), min(hi + 1, 0xFFFF), (lo + hi) // 2])):
+                for pcf in (cf, 0x8001, 0x8020, None):
+                    probes.append((pcf, code))
+        env = dict(PYTHONPATH=common.REPO, PATH='/usr/bin:/bin', PYTHONHASHSEED='0')
+        p = subprocess.run([sys.executable, '-B', '-W', 'ignore', '-c', EXT_PROBE, json.dumps(regs), json.dumps(probes)],
+                           stdout=subprocess.PIPE, stderr=subprocess.PIPE, universal_newlines=True, env=env)
+        try:
+            r = json.loads(p.stdout.strip().splitlines()[-1])
+        except Exception:  # noqa
+            r = dict(base=[9] * len(probes), after=[9] * len(probes), ints=[-1] * len(probes), error=p.stderr[-500:])
+        copt = lambda v: 'None' if v is None else '(Some %d)' % v
+        term = '(%s, %s)' % (
+            clist(['(%s, %d, %d, %d)' % (copt(cf), lo, hi, KIND.index(k)) for cf, lo, hi, k in regs]),
+            clist(['(%s, %d, %d, %d, %d)' % (copt(cf), code, b, a, i)
+                   for (cf, code), b, a, i in zip(probes, r['base'], r['after'], r['ints'])]))
+        out.append((term, dict(registrations=[(cf, hex(lo), hex(hi), k) for cf, lo, hi, k in regs],
+                               probes=len(probes), error=r.get('error'),
+                               changed=[(cf, hex(code), b, a) for (cf, code), b, a in zip(probes, r['base'], r['after']) if a != b][:12])))
+    return out
+
+
+EXT_DEFS = '''
+(* statuses registered through add_status: (command or None = general, first code, last code, class) in the order of
+   registration; a probe: (command, code, class before, class after, int(Status)) *)
+Definition reg := (option N * N * N * N)%type.
+Definition probe := (option N * N * N * N * N)%type.
+Definition beq_ocmd (a b : option N) : bool :=
+  match a, b with Some x, Some y => x =? y | None, None => true | _, _ => false end.
+Definition covers (specific : bool) (cmd : option N) (code : N) (r : reg) : bool :=
+  let '(rc, lo, hi, _) := r in
+  (lo <=? code) && (code <=? hi)
+  && (if specific then match rc with Some _ => beq_ocmd rc cmd | None => false end
+      else match rc with None => true | Some _ => false end).
+Definition last_class (l : list reg) : option N :=
+  match rev l with r :: _ => Some (snd r) | [] => None end.
+(* service-specific registrations first, then general ones, then whatever the code was before; but a shipped
+   service-specific entry still precedes a newly registered general one *)
+Definition expected_class (regs : list reg) (shipped_specific : bool) (cmd : option N) (code base : N) : N :=
+  match last_class (filter (covers true cmd code) regs) with
+  | Some k => k
+  | None => if shipped_specific then base
+            else match last_class (filter (covers false cmd code) regs) with Some k => k | None => base end
+  end.
+Definition ext_ok (c : list reg * list probe) : bool :=
+  let (regs, probes) := c in
+  forallb (fun p => let '(cmd, code, base, after, i) := p in
+                    (i =? code) && (after <? 5)
+                    && ((after =? expected_class regs false cmd code base)
+                        || (after =? expected_class regs true cmd code base))) probes.
+'''
+
+
 def main(tier, seed):
     dec = common.Decision('C18', tier, seed)
     dec.matchers['fe00_cancel'] = lambda r: r.get('kind') == 'cell' and r.get('code') == 0xFE00
@@ -114,6 +210,18 @@ def main(tier, seed):
                    no_input=True)
     else:
         dec.coverage['discharged'] += 2
+    # the extension API
+    import random
+    ext = extension_cases(random.Random(seed), tier)
+    f2, b2, n2, k2 = common.run_sharded(run, 'Ext', 'From PND Require Import Lib.Base.\n', '(list reg * list probe)%type',
+                                        [t for t, _h in ext], [('ext', 'ext_ok')], size=50, preamble=EXT_DEFS)
+    dec.coverage['obligations'] += n2
+    dec.coverage['discharged'] += k2
+    dec.coverage['application_registered_statuses'] = dict(plans=len(ext), probes=sum(h['probes'] for _t, h in ext))
+    for i in f2['ext']:
+        dec.report(dict(ext[i][1], kind='registered-status-misclassified'))
+    for name, o in b2:
+        dec.report(dict(kind='case-file-broken', file=name, detail=o), no_input=True)
     if not dec.violations:
         run.cleanup()
     else:
